@@ -18,7 +18,7 @@ ASSUMPTIONS = [
     "the redundant-l rule: an l that returns to the start point directly before h may be dropped from the reported points (accepted either way)",
     "'m l h' may be reported as a line or as a curve (the property's 'one straight segment' is ambiguous for a closed two-point path)",
 ]
-OUTSIDE = ["the obsolete F operator", "clipping (W, W*)", "shading", "sc/scn after a colour-space change (covered by C05.H6 only for totality)", "more construction operators than the bound"]
+OUTSIDE = ["the obsolete F operator", "colour spaces with 2 or more than 4 components (the item colours are gray, RGB or CMYK values)", "ColorSpace resources named like a device family", "clipping (W, W*)", "shading", "sc/scn after a colour-space change (covered by C05.H6 only for totality)", "more construction operators than the bound"]
 
 CONS = ["l", "c", "v", "y", "re", "m", "h"]
 PAINT = {"S": (True, False, False, False), "s": (True, False, False, True), "f": (False, True, False, False), "f*": (False, True, True, False),
@@ -442,7 +442,110 @@ def h2_quads(timeout=200, part=None, **kw):
                          timeout, concretize=conc, shims={"namespace_shims": shims}, part=part)
 
 
+# ------------------------------------------------------------------------------------------ H4 named colour spaces of the resource dictionary
+RES_SPECS = ["icc1", "icc3", "icc4", "devn3", "devn1", "name:DeviceRGB", "array:DeviceCMYK", "array:Lab", "icc-bad"]
+RES_DEF_NAMES = ["CS0", "CS1"]
+RES_USE_NAMES = ["CS0", "CS1", "DeviceRGB", "DeviceCMYK", "Nope"]
+RES_VALUES = [0.125, 0.25, 0.5, 0.75]
+
+
+def _res_spec(kind):
+    from pdfminer.psparser import LIT
+    from pdfminer.pdftypes import PDFStream
+    if kind.startswith("icc"):
+        return [LIT("ICCBased"), PDFStream({"N": int(kind[3:])} if kind[3:].isdigit() else {}, b"")]
+    if kind.startswith("devn"):         # colours of 2 or of more than 4 components have no representation in the layout items: outside the claim
+        return [LIT("DeviceN"), [LIT(c) for c in "abc"[:int(kind[4:])]], LIT("DeviceRGB"), {}]
+    if kind.startswith("name:"):
+        return LIT(kind[5:])
+    return [LIT(kind[6:])]
+
+
+def _res_ncomp(kind):
+    """components of the colour space a ColorSpace resource of this kind defines (ISO 32000-1 8.6); None: no usable definition"""
+    return {"icc1": 1, "icc3": 3, "icc4": 4, "devn3": 3, "devn1": 1, "name:DeviceRGB": 3, "array:DeviceCMYK": 4, "array:Lab": 3, "icc-bad": None}[kind]
+
+
+def _res_run(pages, same_interp):
+    """pages: [(defined name or None, kind, used name, stroking?)]; the pages are interpreted one after the other in this process, as process_page does (init_resources, init_state,
+    then the operators); returns per page (colour found on the painted line, colour the page's own resources imply)"""
+    import pdfminer.pdfinterp as pi
+    import pdfminer.pdfcolor as pc
+    from pdfminer.psparser import LIT
+    frame = {k: (v.name, v.ncomponents) for k, v in pc.PREDEFINED_COLORSPACE.items()}
+    out = []
+    it = dev = None
+    for (dname, kind, uname, stroking) in pages:
+        if it is None or not same_interp:
+            it, dev = _setup()
+        from pdfminer.layout import LTPage
+        dev.cur_item = LTPage(1, (0, 0, 1000, 1000))
+        res = {"ColorSpace": {dname: _res_spec(kind)}} if dname is not None else {}
+        it.init_resources(res)
+        it.init_state(I6)
+        own = dict(CSN, CalRGB=3, CalGray=1, Lab=3, Separation=1, Indexed=1, Pattern=1)
+        if dname is not None and _res_ncomp(kind) is not None:
+            own[dname] = _res_ncomp(kind)
+        n = own.get(uname, 1)                    # an undefined name selects nothing: the initial DeviceGray stays
+        (it.do_CS if stroking else it.do_cs)(LIT(uname))
+        for v in RES_VALUES[:n]:
+            it.push(v)
+        (it.do_SCN if stroking else it.do_scn)()
+        it.do_m(0, 0); it.do_l(5, 5); it.do_S()
+        sh = shapes_of(dev.cur_item)
+        exp = RES_VALUES[0] if n == 1 else tuple(RES_VALUES[:n])
+        got = None if len(sh) != 1 else (sh[0].stroking_color if stroking else sh[0].non_stroking_color)
+        out.append((got, exp))
+    now = {k: (v.name, v.ncomponents) for k, v in pc.PREDEFINED_COLORSPACE.items()}
+    return out, (None if now == frame else "the process-wide table of predefined colour spaces changed: %r" % sorted(set(now.items()) ^ set(frame.items())))
+
+
+def _res_pages(sel):
+    return [(RES_DEF_NAMES[d - 1] if d else None, RES_SPECS[k], RES_USE_NAMES[u], bool(st)) for d, k, u, st in sel["pages"]]
+
+
+def _res_check(sel):
+    pages = _res_pages(sel)
+    out, frame = _res_run(pages, sel["same"])
+    for i, (got, exp) in enumerate(out):
+        if got != exp:
+            return "pages (resource name, definition, name used with %s, stroking) = %r interpreted in this order%s: page %d paints its line with the colour %r; its own resources give %r" % (
+                "cs/CS", pages, " by one interpreter" if sel["same"] else "", i + 1, got, exp)
+    return frame
+
+
+RES_QUICK = [1, 2, 4, 5, 8]                # indices into RES_SPECS used by the quick tier
+
+
+def h4_resources(npages=2, timeout=200, part=None, kinds=None, **kw):
+    """every sequence of npages pages, each with no ColorSpace resource or one named colour space (ICCBased N=1/3/4 or without N, DeviceN, a device family by name or array, Lab),
+    each selecting a colour space by name (its own, the other page's, a device family, an undefined name) and setting a colour with as many operands as that space has: the colour
+    on the painted line is the one the page's OWN resources imply, whatever was interpreted before, and the predefined table is unchanged (real runs selected by symbolic choices)"""
+    import pdfminer.pdfinterp as pi
+
+    def fn(ex):
+        sel = {"same": ex.choice(2, "same") == 1, "pages": []}
+        for i in range(npages):
+            d = ex.choice(1 + len(RES_DEF_NAMES), "def%d" % i)
+            k = (kinds[ex.choice(len(kinds), "kind%d" % i)] if kinds else ex.choice(len(RES_SPECS), "kind%d" % i)) if d else 0
+            sel["pages"].append((d, k, ex.choice(len(RES_USE_NAMES), "use%d" % i), ex.choice(2, "str%d" % i)))
+        try:
+            r = _res_check(sel)
+        except Exception as e:
+            ex.require(False, "interpreting the pages raised %s: %s" % (type(e).__name__, e), sel=sel)
+        ex.require(r is None, r or "", sel=sel)
+
+    def conc(m, info):
+        return info
+    P = pi.PDFPageInterpreter
+    return core.run_symx("H4_resources", fn, [P.init_resources, P.init_state, P.do_cs, P.do_CS, P.do_scn, P.do_SCN],
+                         {"pages": "every sequence of %d pages; ColorSpace resource: none or one of %s under the name %s; name used: %s; stroking / non-stroking; one interpreter or a fresh one per page" % (
+                             npages, [RES_SPECS[k] for k in kinds] if kinds else RES_SPECS, RES_DEF_NAMES, RES_USE_NAMES)}, timeout, concretize=conc, part=part)
+
+
 def replay(harness, inp):
+    if harness == "H4_resources":
+        return _res_check(inp["sel"])
     from fractions import Fraction as F
     v = {k: F(x) for k, x in inp["vals"].items()}
     g = lambda n: v.get(n, F(0))
@@ -507,6 +610,7 @@ def replay(harness, inp):
 def jobs(tier):
     J = [Job("H2_quads:%d" % k, "h2_quads", {"part": [k, 3, 6]}, 300, "H2_quads") for k in range(3)]
     J += [Job("H3_saverestore:%d" % k, "h3_saverestore", {"part": [k, 4, 8]}, 300, "H3_saverestore") for k in range(4)]
+    J += [Job("H4_resources:%d" % k, "h4_resources", {"npages": 2, "kinds": RES_QUICK if tier == "quick" else None, "part": [k, 8, 6]}, 300 if tier == "quick" else 1800, "H4_resources") for k in range(8)]
     if tier == "quick":
         for k in range(10):
             J.append(Job("H1_paths:K2:m:axis:%d" % k, "h1_paths", {"K": 2, "first": 0, "axis_ctm": True, "part": [k, 10, 11]}, 300, "H1_paths"))
